@@ -14,6 +14,8 @@ class AmrReader(Reader):
 
     def initialize(self, meta, units, select):
         self.initialized = False
+        # The CPU pre-selection belongs to one load() call: forget the previous one.
+        self.cpu_list = None
         if select is False:
             return
 
